@@ -219,9 +219,24 @@ def scan(prog, entry_defs):
         inst = prog.instances[n]
         if inst["local"] and inst["kind"] == "item" and inst["def"] in prog.bodies:
             defs.setdefault(inst["def"], n)
+    # bodies are analysed in their inlined form (pv.inline): a helper that is inlined at every call site is not
+    # scanned on its own - its sites are attributed to the functions that call it
+    prog.body(next(iter(defs))) if defs else None
+    inl = getattr(prog, "_inliner", None)
+    scan_set = {d for d in defs if inl is None or not inl.inlinable(d)} | {d for d in entry_defs if d in defs}
+    work = list(scan_set)
+    while work:
+        d = work.pop()
+        for _bi, t in prog.body(d).calls():
+            c = t.get("res")
+            if c and t.get("resl") and c in defs and c not in scan_set:
+                scan_set.add(c)
+                work.append(c)
     sites = []
     for d, n in sorted(defs.items()):
-        b = prog.bodies[d]
+        if d not in scan_set:
+            continue
+        b = prog.body(d)
         for s in scan_body(b):
             sites.append((s, n))
     return sites, reach, parent, defs
@@ -799,9 +814,14 @@ def upper_bound(ix, op, depth=0):
             op_ = rv["op"]
             a, b = rv["a"], rv["b"]
             if op_ == "BitAnd":
-                for x in (a, b):
+                for x, y in ((a, b), (b, a)):
                     v = const_int(x)
                     if v is not None and v >= 0:
+                        uy = upper_bound(ix, y, depth + 1)
+                        if uy:
+                            # y < uy: only the bits below uy's bit length can survive the mask
+                            full = (1 << (uy - 1).bit_length()) - 1
+                            return min(v, full & v) + 1
                         return v + 1
                 ua, ub = upper_bound(ix, a, depth + 1), upper_bound(ix, b, depth + 1)
                 cands = [u for u in (ua, ub) if u]
@@ -1335,7 +1355,7 @@ def analyse(prog, entry_defs, counts=None, wire=None):
     for s, n in sites:
         ix = cache.get(s.fn)
         if ix is None:
-            ix = cache[s.fn] = BodyIndex(prog.bodies[s.fn])
+            ix = cache[s.fn] = BodyIndex(prog.body(s.fn))
         try:
             s.discharge = discharge(ix, s)
         except Exception as e:  # a discharge that cannot be evaluated is no discharge
